@@ -10,7 +10,8 @@ Wrapper state is arbitrary: any subset of the inspectors already errored, any
 expected_format, any iteration order of the inspector set (explored over all
 permutations of three inspectors, because Python set order is arbitrary).
 """
-from pyvc.api import (proof, load, blank, fresh_bool, fresh_int, fresh_str, pick,
+from pyvc.api import (proof, load, blank, model, fresh_bool, fresh_int, fresh_str,
+                      pick,
                       assume,
                       check, cover, same, implies, conj, disj, neg)
 
@@ -437,4 +438,173 @@ CANARIES = [
          proofs=['allowed_formats_limit_the_inspector_set'],
          old='if not allowed_formats or k in allowed_formats}',
          new='if not allowed_formats or k}', expect='init/inspector-set'),
+]
+
+
+# ---------------------------------------------------------------------------
+# detect_file_format / FileInspector.from_file (lazy _chunked_reader)
+
+
+class _NS2:
+    pass
+
+
+@proof(['C03', 'C06'], targets=[(FI, 'detect_file_format'),
+                                (FI, '_chunked_reader')], native=False,
+       assumes=['generators interleave with their consumer (PEP 255)'])
+def detect_file_format_contract():
+    """detect_file_format returns the first decision the wrapper reports,
+    stops reading there, always closes the wrapper, and lets nothing but
+    what wrapper.format raises escape."""
+    M = load(FI)
+    nchunks = pick('chunks_in_file', [0, 1, 2, 3])
+    decide_at = pick('decided_after_read', [None, 1, 2, 3])
+    final = pick('final_format', ['inspector', 'ImageFormatError'])
+    log = []
+    verdict = M.RawFileInspector()
+
+    class FakeWrapper:
+        def __init__(self, source):
+            self.source = source
+            self.reads = 0
+            self.closed = False
+            log.append('wrapped')
+
+        def read(self, size):
+            self.reads += 1
+            log.append(('read', size))
+            return b'x' if self.reads <= nchunks else b''
+
+        @property
+        def format(self):
+            if not self.closed:
+                if decide_at is not None and self.reads >= decide_at:
+                    return verdict
+                return None
+            if final == 'ImageFormatError':
+                raise M.ImageFormatError('ambiguous')
+            return verdict
+
+        def close(self):
+            self.closed = True
+            log.append('close')
+
+    class FakeFile:
+        def __enter__(self):
+            return self
+
+        def __exit__(self, a, b, c):
+            log.append('file-closed')
+            return False
+    model(M, 'InspectWrapper', FakeWrapper)
+    model(M, 'open', lambda path, mode: FakeFile())
+    raised = None
+    r = None
+    try:
+        r = M.detect_file_format('/some/file')
+    except M.ImageFormatError as e:
+        raised = e
+    reads = [x for x in log if x != 'wrapped' and x != 'close'
+             and x != 'file-closed']
+    check('detect/wrapper-always-closed', log.count('close') == 1
+          and log.index('close') < log.index('file-closed'), 'C03')
+    check('detect/reads-4096-byte-chunks',
+          all([x == ('read', 4096) for x in reads]), 'C03')
+    early = decide_at is not None and decide_at <= nchunks
+    if early:
+        check('detect/returns-the-first-decision', r is verdict
+              and raised is None, 'C03')
+        check('detect/stops-reading-once-decided', len(reads) == decide_at,
+              'C03 C06')
+    else:
+        check('detect/reads-to-the-end-when-undecided',
+              len(reads) == nchunks + 1, 'C03')
+        check('detect/final-answer-is-the-closed-wrappers-format',
+              (r is verdict and raised is None) if final == 'inspector'
+              else raised is not None, 'C03')
+
+
+@proof(['C01', 'C03'], targets=[(FI, 'FileInspector.from_file'),
+                                (FI, '_chunked_reader')], native=False,
+       assumes=['generators interleave with their consumer (PEP 255)'])
+def from_file_contract():
+    M = load(FI)
+    nchunks = pick('chunks_in_file', [0, 1, 3])
+    complete_after = pick('complete_after_chunk', [None, 1, 2])
+    matches = pick('format_match', [True, False])
+    log = []
+
+    class Scripted(M.RawFileInspector):
+        def eat_chunk(self, chunk):
+            log.append(('eat', chunk))
+
+        @property
+        def complete(self):
+            n = len([x for x in log if x[0] == 'eat'])
+            return complete_after is not None and n >= complete_after
+
+        @property
+        def format_match(self):
+            return matches
+
+        def finish(self):
+            log.append(('finish',))
+
+    class FakeFile:
+        def __init__(self):
+            self.reads = 0
+
+        def __enter__(self):
+            return self
+
+        def __exit__(self, a, b, c):
+            log.append(('file-closed',))
+            return False
+
+        def read(self, size):
+            self.reads += 1
+            log.append(('read', size))
+            return b'x' * size if self.reads <= nchunks else b''
+    model(M, 'open', lambda path, mode: FakeFile())
+    raised = None
+    r = None
+    try:
+        r = Scripted.from_file('/some/file')
+    except M.ImageFormatError as e:
+        raised = e
+    eats = [x for x in log if x[0] == 'eat']
+    reads = [x for x in log if x[0] == 'read']
+    done = complete_after is not None and complete_after <= nchunks
+    check('from_file/512-byte-reads', all([x == ('read', 512)
+                                           for x in reads]), 'C01')
+    check('from_file/every-chunk-read-is-presented-once',
+          len(eats) == (complete_after if done else nchunks), 'C01')
+    check('from_file/stops-reading-once-complete',
+          len(reads) == (complete_after if done else nchunks + 1), 'C01')
+    check('from_file/finish-called-after-the-file-is-closed',
+          log.count(('finish',)) == 1
+          and log.index(('file-closed',)) < log.index(('finish',)), 'C01')
+    check('from_file/error-iff-incomplete-or-mismatch',
+          (raised is not None) == (not (done and matches)), 'C03 C01')
+    if raised is None:
+        check('from_file/returns-the-inspector', isinstance(r, Scripted),
+              'C01')
+
+
+CANARIES = CANARIES + [
+    dict(name='detect-close-outside-finally', prop='C03', file=FI,
+         proofs=['detect_file_format_contract'],
+         old="        try:\n            for _chunk in _chunked_reader(wrapper, 4096):\n                if wrapper.format:\n                    return wrapper.format\n        finally:\n            wrapper.close()\n        return wrapper.format",
+         new="        for _chunk in _chunked_reader(wrapper, 4096):\n            if wrapper.format:\n                return wrapper.format\n        wrapper.close()\n        return wrapper.format",
+         expect='detect/wrapper-always-closed'),
+    dict(name='detect-never-returns-early', prop='C03', file=FI,
+         proofs=['detect_file_format_contract'],
+         old="                if wrapper.format:\n                    return wrapper.format\n",
+         new="                if wrapper.format:\n                    pass\n",
+         expect='detect/'),
+    dict(name='from-file-keeps-reading', prop='C01', file=FI,
+         proofs=['from_file_contract'],
+         old="                if inspector.complete:\n                    # No need to eat any more data\n                    break\n",
+         new="                if inspector.complete:\n                    pass\n",
+         expect='from_file/'),
 ]
